@@ -120,6 +120,7 @@ def setup(ctx):
             ctx.require('malformed.route.' + r, 1, 'every documented parser route must be taken by malformed strings')
         ctx.require('empty.blank-string', 1, 'blank strings (white space only) must be parsed')
         ctx.require('long_formulas', 1, 'formulas of hundreds of groups must be parsed')
+        ctx.require('deep_nesting', 1, 'parentheses nested more than 100 deep must be tried')
         for cls in ('unknown-symbol', 'undefined-isotope', 'undefined-charge', 'bad-isotope-tag', 'bad-ion-tag',
                     'bad-count', 'unbalanced-bracket', 'bad-density'):
             ctx.require('malformed.' + cls, MALFORMED_MIN, 'every malformation class must be exercised')
@@ -236,6 +237,8 @@ def check_string(ctx, case):
     denot = _denot_from_case(case)
     route = case.get('route', 'formula')
     ctx.count('route.' + route)
+    if case.get('deep'):
+        ctx.count('deep_nesting')
     if case.get('long'):
         ctx.count('long_formulas')
         ctx.observe('long_formulas.groups', case['long'])
@@ -511,6 +514,24 @@ def _long_cases(ctx, rng, tables):
         if rng.random() < 0.3:
             case['route'] = rng.choice(ROUTES[1:])
         yield 'string', case
+    # "any nesting depth": parentheses nested far deeper than any chemistry needs (the quick tier's random trees stop
+    # at depth 4, the thorough tier's chains at 60); one chain per table and depth
+    for depth in (120, 250):
+        for tname in ('public', 'private'):
+            g = FormulaGen(tables[tname], rng, ws_patterns=0.0)
+            g.count = _small_count(rng)
+            node = g.deep(depth)
+            case, _ = _case_of(node, tname, node.depth)
+            case['shape'] = 'deep:%d' % depth
+            case['deep'] = depth
+            yield 'string', case
+
+
+def _small_count(rng):
+    """Counts for very deep chains: 1 or 2 (a count multiplies everything inside, 250 levels of 12 overflow a double)."""
+    def count(allow_one=True, p_one=0.35):
+        return ('', Fraction(1)) if rng.random() < 0.7 else ('2', Fraction(2))
+    return count
 
 
 def _safe_text(node):
@@ -529,6 +550,11 @@ def classify(rec):
                 and not case.get('from', '@').endswith('@'):
             return 'c01.empty-density-tag'
         return None
+    if rec.get('check') == 'string' and d.get('exc_type') == 'RecursionError' and (case.get('deep') or 0) >= 100 \
+            and not case.get('long'):
+        # the recursive-descent parser needs some ten interpreter frames per level of parentheses: with CPython's
+        # default recursion limit a valid string nested deeper than about 105 levels is refused with RecursionError
+        return 'c01.nesting-depth-recursion-limit'
     flags = d.get('flags') or []
     if rec.get('check') == 'string' and flags and d.get('sibling_ok') is True and not d.get('exc_type'):
         if flags == ['ws-after-counted-group']:
